@@ -56,7 +56,7 @@ CHECKS["C10"] = dict(
 CHECKS["C13"] = dict(
     category="proof",
     text="MarkovSequence.sample is verified for the three factorisations, backward and forward sequences and batched sample shapes: the result is affine in the standard-normal draws (symbols of the random.normal kernel, one per PRNG key and entry), equals the marginal means when the draws are zero, and the Gram matrix of its linear part equals the joint covariance defined by the Markov factorisation (including cross-covariances and independence across dimensions and across batched samples).",
-    note="N (number of conditionals), n, d are enumerated; PRNG key derivation (split) is executed concretely with the real implementation, random.normal is a kernel axiom (fresh symbol per key/entry, same key => same draw); relation of the backward factorisation to the smoothing posterior is C03",
+    note="N (number of conditionals), n, d are enumerated; PRNG key derivation (split) is executed concretely with jax.random.split (the repository's random wrappers are under delegation contracts, contracts/backend.py), random.normal is a kernel axiom (fresh symbol per key/entry, same key => same draw); relation of the backward factorisation to the smoothing posterior is C03",
     design_ref="DESIGN.md section 4 (C13)",
 )
 
